@@ -299,9 +299,8 @@ def _fresh_queue(chk, f_peq):
                       "were already waiting (breadth-first)", construct=f_peq.ident,
                text="drained deque aliased with event_queue: " + short(n.ast, 60),
                path=cfg.fmt_path(path, f_peq) if path else None)
-    chk.floor("FRESH-0", 2)
-    if k == 0:
-        chk.missing("FRESH-0", "the drain loop takes the pending deque (`<local> = self.event_queue`)", f_peq)
+    if k < 2:
+        chk.missing("FRESH-0", "the drain loop takes the pending deque at its start and after every dispatch that posted events (`<local> = self.event_queue`, found %d of 2)" % k, f_peq)
 
 
 def _names_in_args(call):
